@@ -431,8 +431,8 @@ def validate(ctx, trace_path, prefixes, label, timeout=3000, heap="8g", per_sign
             ctx.violation(sig, text, {"module": TRACE, "invariant": name, "at_event": n, "cfg": scen[0]["cfg"],
                                       "prog": program_of(scen), "observed": prefix[-1].get("state") if n > 1 else None})
     ctx.add_tlc(r)
-    ctx.cov["traces_validated_against_impl"] += len(spans)
-    ctx.cov["trace_events_validated"] += len(events) - len(spans)
+    ctx.add("traces_validated_against_impl", len(spans))
+    ctx.add("trace_events_validated", len(events) - len(spans))
     ctx.stage("validate-" + label, scenarios=len(spans), events=len(events), property_violations=nviol,
               signatures={k: len(v) for k, v in viol.items()}, drift=len(drifts), wall=round(r.wall, 1))
     if drifts:
@@ -561,7 +561,7 @@ def run_stage(ctx, prefixes):
         ntrans, leaves = export_paths(ctx, name, scn, bounds)
         if len(leaves) > cap:
             leaves = sample_by_shape(ctx, name, scn, leaves, cap, rnd)
-        ctx.cov["edges_replayed_on_impl"] += sum(len(p) for p in leaves)
+        ctx.add("edges_replayed_on_impl", sum(len(p) for p in leaves))
         traces.append(replay_paths(ctx, binary, name, scn, leaves))
     rt = os.path.join(ctx.scratch, "trace-random.ndjson")
     p = vlib.run_harness(binary, ["-random", str(nrandom), "-seed", str(ctx.seed), "-len", str(rlen), "-out", rt])
